@@ -27,12 +27,21 @@ pub unsafe extern "C" fn clock_gettime(clk: i32, tp: *mut Ts) -> i32 {
 pub static RECV_LOG_FD: AtomicI32 = AtomicI32::new(-1);
 pub static RECV_MAX_LEN: AtomicUsize = AtomicUsize::new(0);
 
+/// number of threads currently inside `recv` on RECV_LOG_FD ("the server is parked in a read on that connection")
+pub static RECV_PARKED: AtomicI32 = AtomicI32::new(0);
+
 #[no_mangle]
 pub unsafe extern "C" fn recv(fd: i32, buf: *mut libc::c_void, len: usize, flags: i32) -> isize {
-    if fd == RECV_LOG_FD.load(Ordering::Relaxed) {
+    let watched = fd == RECV_LOG_FD.load(Ordering::Relaxed);
+    if watched {
         RECV_MAX_LEN.fetch_max(len, Ordering::SeqCst);
+        RECV_PARKED.fetch_add(1, Ordering::SeqCst);
     }
-    libc::syscall(libc::SYS_recvfrom, fd as libc::c_long, buf, len, flags as libc::c_long, 0usize, 0usize) as isize
+    let r = libc::syscall(libc::SYS_recvfrom, fd as libc::c_long, buf, len, flags as libc::c_long, 0usize, 0usize) as isize;
+    if watched {
+        RECV_PARKED.fetch_sub(1, Ordering::SeqCst);
+    }
+    r
 }
 
 /// (number of EPOLL_CTL_ADD calls on connection sockets seen so far, indices that must fail)
